@@ -40,6 +40,8 @@ Definition sx_body (s : sx) : option body :=
   | SList [SInt 4%Z; SInt bits] => Some (BFloat (Z.to_N bits))
   | SList [SInt 5%Z; SInt seed; SInt len; SInt mask] =>
       Some (BBytes (gen_bytes (Z.to_nat len) (Z.to_N seed) (Z.to_N mask)))
+  | SList [SInt 7%Z] => Some (BBytes [])     (* []byte(nil) *)
+  | SList [SInt 8%Z] => Some (BStr [])       (* "" *)
   | _ => None
   end.
 
